@@ -726,10 +726,21 @@ def check_amplification(run, ix):
     for f in ix.module(rel).funcs.values():
         if f.parent is not None:
             continue
+        # locals holding the reciprocal: w = ctx.one / z
+        recip = set(norm(a.targets[0]) for a in _walk_own(f.node) if isinstance(a, ast.Assign) and
+                    isinstance(a.value, ast.BinOp) and isinstance(a.value.op, ast.Div) and
+                    norm(a.value.left) == 'ctx.one')
+        seen_site = set()
         for x in _walk_own(f.node):
-            if isinstance(x, ast.Call) and isinstance(x.func, ast.Attribute) and norm(x.func.value) == 'ctx' and \
-                    x.func.attr in SINGULAR_AT_ONE and len(x.args) == 1 and isinstance(x.args[0], ast.BinOp) and \
-                    isinstance(x.args[0].op, ast.Div) and norm(x.args[0].left) == 'ctx.one':
+            direct = isinstance(x, ast.Call) and isinstance(x.func, ast.Attribute) and norm(x.func.value) == 'ctx' and \
+                x.func.attr in SINGULAR_AT_ONE and len(x.args) == 1 and isinstance(x.args[0], ast.BinOp) and \
+                isinstance(x.args[0].op, ast.Div) and norm(x.args[0].left) == 'ctx.one'
+            through = isinstance(x, ast.Call) and isinstance(x.func, ast.Attribute) and norm(x.func.value) == 'ctx' and \
+                x.func.attr in SINGULAR_AT_ONE and len(x.args) == 1 and norm(x.args[0]) in recip
+            if direct or through:
+                if norm(x) in seen_site:
+                    continue
+                seen_site.add(norm(x))
                 n += 1
                 run.fail(F('F-R8', rel, f.qualname, x,
                            '%s(1/z): the derivative of %s is singular at +-1, so the 2^-53 rounding error of the '
@@ -737,6 +748,47 @@ def check_amplification(run, ix):
                            'near |z| = 1 loses up to half of its digits' % (x.func.attr, x.func.attr)))
     if n < 5:
         raise AnalysisError('F-R8: amplification constructs not found (%d)' % n)
+
+
+# --------------------------------------------------------------------------- F-R14
+def check_asech_side(run, ix):
+    """F-R14.  asech(z) = acosh(1/z), and acosh has the cut (-inf, 1).  For |z| > 1 the quotient lies next to that cut
+    whenever im(z) is small against |z|**2 -- and in double precision im(1/z) = -im(z)/|z|**2 then UNDERFLOWS to a zero,
+    so that acosh sees a point on the cut and continues it from above, whatever the side.  (The other reciprocal
+    compositions have their cuts at |1/z| > 1, where nothing underflows.)  Decided: asech keeps the quotient in a
+    local, tests `im(z) non-zero and im(w) zero`, evaluates acosh on the real part there and conjugates the result
+    for im(z) > 0 (im(1/z) < 0: below the cut)."""
+    run.rule('F-R14', floor=1, desc='asech selects the side of the cut from im(z) when im(1/z) has underflowed')
+    rel = 'mpmath/functions/functions.py'
+    f = ix.func(rel, 'asech')
+    z = f.params[1]
+    ws = [a for a in _walk_own(f.node) if isinstance(a, ast.Assign) and isinstance(a.value, ast.BinOp) and
+          isinstance(a.value.op, ast.Div) and norm(a.value.left) == 'ctx.one' and norm(a.value.right) == z]
+    ok = False
+    if ws:
+        w = norm(ws[0].targets[0])
+        for st in f.node.body:
+            if not isinstance(st, ast.If):
+                continue
+            cs = [norm(c).replace(' ', '') for c in (st.test.values if isinstance(st.test, ast.BoolOp) and
+                                                     isinstance(st.test.op, ast.And) else [st.test])]
+            if sorted(cs) != sorted(['ctx._im(%s)' % z, 'notctx._im(%s)' % w]):
+                continue
+            vdefs = [a for a in st.body if isinstance(a, ast.Assign) and
+                     norm(a.value) == 'ctx.acosh(ctx._re(%s))' % w]
+            conj = [i for i in st.body if isinstance(i, ast.If) and norm(i.test).replace(' ', '') == 'ctx._im(%s)>0' % z
+                    and vdefs and [norm(b) for b in i.body] == ['return ctx.conj(%s)' % norm(vdefs[0].targets[0])]]
+            plain = [r for r in st.body if isinstance(r, ast.Return) and vdefs and norm(r.value) == norm(vdefs[0].targets[0])]
+            if vdefs and conj and plain:
+                ok = True
+    if ok:
+        run.ok('F-R14', 'asech: for im(z) != 0 and im(1/z) == 0 the value is acosh(re(1/z)), conjugated for im(z) > 0')
+    else:
+        rets = [r for r in _walk_own(f.node) if isinstance(r, ast.Return)]
+        run.fail(F('F-R14', rel, 'asech', rets[0] if rets else f.node,
+                   'asech hands 1/z to acosh as it is: for a large complex z the imaginary part of the quotient '
+                   'underflows to a zero, acosh takes the point to lie on its cut (-inf, 1) and continues from above, '
+                   'and fp.asech(1e200+1e50j) is the conjugate of the value'))
 
 
 # --------------------------------------------------------------------------- F-R9
@@ -986,6 +1038,7 @@ def run(run, ix, tier):
     nslots = check_fp_table(run, ix)
     check_no_fallthrough(run, ix)
     check_even_integer_shortcuts(run, ix)
+    check_asech_side(run, ix)
     run.rule('F-R10', floor=1, desc='*pi reduction folds the remainder into |r| <= 1/4')
     check_quarter_fold(run, ix)
     check_amplification(run, ix)
